@@ -423,6 +423,29 @@ func run(c *rig.Ctx) {
 			}
 			c.Count("tima_readbacks_timer_stopped", 1)
 		}
+		// the same on a machine of its own, where the stop falls exactly `off` cycles after the
+		// start (right into the overflow and its two reload cycles for the first offsets; the
+		// machine above has meanwhile drawn two lines)
+		{
+			w2 := newWorld(c, r)
+			w2.m.Mem.Write(0xff04, 0)
+			w2.m.Mem.Write(0xff06, 0x23)
+			w2.m.Mem.Write(0xff05, r.Pick8([]uint8{0xfe, 0xfe, 0xff, 0xfd}))
+			w2.m.Mem.Write(0xff07, 0x05)
+			w2.tick(off % 24)
+			w2.m.Mem.Write(0xff07, 0x00)
+			w2.tick(4)
+			for k := 0; k < 3; k++ {
+				v := r.U8()
+				w2.m.Mem.Write(0xff05, v)
+				w2.tick(k)
+				if got := w2.m.Mem.Read(0xff05); got != v {
+					c.Violate("readback-io-FF05-timer-stopped", fmt.Sprintf("timer stopped exactly %d cycles after it was started with TIMA about to overflow: TIMA written %02X reads %02X %d cycles later", off%24, v, got, k), nil)
+					break
+				}
+				c.Count("tima_readbacks_timer_stopped", 1)
+			}
+		}
 		if lcdOffFirst {
 			// VRAM and OAM are plain memory once the LCD is off, whenever it was switched off
 			for k := 0; k < 8; k++ {
